@@ -207,8 +207,56 @@ class SB:
         self.steps.append(dict(op=name, **kw))
         return self
 
+    def batch(self, frames, segs=None):
+        """peer_batch: the frames (dicts like peer_send / keepalive / reply steps, with "op") go out concatenated, in one
+        Write or split at the byte offsets `segs`"""
+        st = dict(op="peer_batch", frames=frames)
+        if segs:
+            st["segs"] = list(segs)
+        self.steps.append(st)
+        return self
+
     def script(self):
         return dict(id=self.id, steps=self.steps)
+
+
+# ---------------------------------------------------------------- batched peer frames
+# A peer_batch step hands several frames to the connection in Writes that ignore frame boundaries. What the client has
+# to do with them is what it has to do when they arrive one by one: for the model, the predicates and the comparison a
+# batched script IS its flattened form, and Go's single observation of the batch stands for one observation per frame.
+def has_batch(script):
+    return any(s.get("op") == "peer_batch" for s in script["steps"])
+
+
+def flatten(script):
+    if not has_batch(script):
+        return script
+    steps = []
+    for s in script["steps"]:
+        if s["op"] == "peer_batch":
+            steps += [dict(f, _batch=True) for f in s["frames"]]
+        else:
+            steps.append(s)
+    return dict(script, steps=steps)
+
+
+def expand_go(script, go):
+    if go is None or not has_batch(script) or go.get("_expanded"):
+        return go
+    obs = []
+    for s, o in zip(script["steps"], go.get("obs") or []):
+        if s["op"] == "peer_batch":
+            ids = o.get("ids") or []
+            for j, f in enumerate(s["frames"]):
+                obs.append(dict(op=f["op"], st=o.get("st"), id=ids[j] if j < len(ids) else f.get("id", 0)))
+        else:
+            obs.append(o)
+    return dict(go, obs=obs, _expanded=True)
+
+
+def frame_len(f):
+    """bytes a peer frame spec occupies on the wire"""
+    return 10 + pl_len_hash(f.get("pl"))[0]
 
 
 # ---------------------------------------------------------------- script -> oracle tokens
@@ -225,6 +273,7 @@ def oracle_line(script, variant):
         filter_unsolicited, stamp_always = variant
     else:
         filter_unsolicited, stamp_always = variant, False
+    script = flatten(script)
     steps = script["steps"]
     conn = next((s for s in steps if s["op"] == "connect"), None)
     version = (conn or {}).get("version", 2) or 2
@@ -447,6 +496,13 @@ def shutdown_callers(script):
     return {s["caller"] for s in script["steps"] if s["op"] == "shutdown"}
 
 
+def _shutdown_refused(model_res):
+    """model_res = ("ok", typ, len, hash): the reply a Shutdown caller holds in the model. Shutdown turns every reply other
+    than a CloseConnectionResponse / ErrorMessage with status Success into an error of its own (the model keeps the reply
+    and simply does not close)"""
+    return not (model_res[0] == "ok" and model_res[1] in (T_CLOSER, T_ERR) and model_res[2] == 8 and model_res[3] == phash(status_tlv(0)))
+
+
 def _oversize_ok(go_res, typ):
     """a reply longer than 640 KiB: (typ, nil, nil) before /repo 62a2d82 (F3), an error since — C10 judges that, not we"""
     return go_res in (("ok", typ, 0, phash(b"")), ("other",))
@@ -458,6 +514,7 @@ def compare(script, go, mline):
         return ["no Go observation"]
     if go.get("st") in ("watchdog", "skipped") or "harness_panic" in go:
         return ["harness: %s %s" % (go.get("st"), go.get("harness_panic"))]
+    script, go = flatten(script), expand_go(script, go)
     cm, fin = canon_model(script, mline)
     if cm is None:
         return ["oracle: " + fin["error"]]
@@ -472,6 +529,8 @@ def compare(script, go, mline):
         if st["op"] in ("wait_caller", "cancel") and st["caller"] in shut:
             # Shutdown returns nil where the model's caller holds the (acceptable) reply
             if a == ("caller", "nil") and b[:2] == ("caller", "ok"):
+                continue
+            if a == ("caller", "other") and b[:2] == ("caller", "ok") and _shutdown_refused(b[1:]):
                 continue
         if b[:2] == ("caller", "oversize") and a[0] == "caller" and _oversize_ok(a[1:], b[2]):
             continue
@@ -504,6 +563,8 @@ def compare(script, go, mline):
                 diffs.append("final: caller %d blocked in the model, Go after cleanup: %s" % (c, gr))
         elif c in shut and gr == ("nil",) and mr[0] == "ok":
             pass
+        elif c in shut and gr == ("other",) and mr[0] == "ok" and _shutdown_refused(mr):
+            pass
         elif mr[0] == "oversize" and _oversize_ok(gr, mr[1]):
             pass
         elif gr != mr:
@@ -529,6 +590,7 @@ def go_view(script, go):
        peer:   list of dict(typ,id,len,hash,kind) the peer wrote (in order; only those it got rid of)
        callers: caller -> result dict (final)
        reqs:   caller -> dict(typ,len,hash,api)"""
+    script, go = flatten(script), expand_go(script, go)
     frames, peer = [], []
     waits, cancelled_at, ending_at = [], {}, None
     for idx, (st, o) in enumerate(zip(script["steps"], go.get("obs") or [])):
@@ -783,6 +845,7 @@ def pred_c07(view, strict_pending=4):
 
 def c07_order(script, go):
     """sequence of ('ka', id) / ('ack', id) events in script order; drained = the script ends by draining"""
+    script, go = flatten(script), expand_go(script, go)
     order = []
     for st, o in zip(script["steps"], go.get("obs") or []):
         op = st["op"]
@@ -808,6 +871,131 @@ def c07_order(script, go):
             order.append(("drain", None))
     drained = any(st["op"] == "drain" for st in script["steps"][-3:])
     return order, drained
+
+
+# ---------------------------------------------------------------- generator: segmentation of the inbound stream
+def coalesced_script(rnd, sid, focus="mixed"):
+    """The inbound bytes arrive in Writes that have nothing to do with frame boundaries: several whole frames in ONE Write
+    (small messages sharing a TCP segment), or the concatenation cut at arbitrary offsets. The frames are everything a
+    reader may send: replies to outstanding requests (any order), late replies to requests whose caller gave up and
+    second replies (nobody waits: unhandled, with payload), messages of types nobody handles, tag reports / reader events
+    (handled by a scripted handler that reads all / part / nothing of the payload, or not handled at all), keep-alives.
+    What the client does with them must be what it does when each arrives alone: the script is compared with the model
+    in its flattened form and judged by the property predicates. At most 5 keep-alives per batch (the acknowledgement
+    queue holds 5 while the peer is not reading)."""
+    version = rnd.choice([1, 1, 2])
+    default = rnd.choice([None, None, dict(mode=rnd.choice(["all", "none", "part"]), k=rnd.randrange(0, 6))])
+    handlers = None
+    if rnd.random() < 0.4:
+        handlers = [dict(typ=rnd.choice([61, 63]), mode=rnd.choice(["all", "none", "part", "panic"]), k=rnd.randrange(0, 9))]
+    with_first = rnd.random() < 0.2      # the first message of the connection shares its Write with what follows it
+    if with_first:
+        version = 1
+    b = SB(sid, version=version, handlers=handlers, default_handler=default)
+    tagc = [rnd.randrange(1, 1 << 20) * 4096]
+    if with_first:
+        b.steps.append(dict(b.connect_step, no_first=True))
+        frames = [dict(op="peer_send", typ=T_REN, id=0, ver=1, pl=dict(k="conn", status=0))]
+        for k in range(rnd.randrange(1, 5)):
+            if rnd.random() < 0.6:
+                frames.append(dict(op="keepalive", id=rnd.randrange(1, 1 << 31)))
+            else:
+                tagc[0] += 1
+                frames.append(dict(op="peer_send", typ=rnd.choice([11, 61, 63, 100]), id=rnd.randrange(1 << 32),
+                                   pl=dict(k="tag", len=rnd.choice([1, 9, 10, 40]), tag=tagc[0])))
+        total = sum(frame_len(f) for f in frames)
+        b.batch(frames, [] if rnd.random() < 0.6 else [rnd.randrange(1, total)])
+        for f in frames:
+            if f["op"] == "keepalive":
+                b.expect()
+    else:
+        b.connect(cur=rnd.choice([1, 2]), mx=2)
+    req_types = [1, 2, 3, 20, 21, 22, 23, 24, 25, 26, 40, 41, 42, 43, 44, 45, 60, 64, 1023]
+    sizes = [1, 2, 7, 10, 11, 33, 200, 1500, 5000] if focus != "ka" else [1, 4, 10, 40, 300]
+
+    def tag():
+        tagc[0] += 1
+        return tagc[0]
+
+    def rtyp(t):
+        return t + 10 if t + 10 <= 1023 and not 900 <= t + 10 <= 999 else 1023
+
+    nextc = [1]
+    outstanding, answered, gone = [], [], []
+
+    def request():
+        c = nextc[0]
+        nextc[0] += 1
+        b.send(c, rnd.choice(req_types), 1 + rnd.randrange(0, 60), tag())
+        outstanding.append(c)
+
+    for _ in range(rnd.randrange(1, 5)):
+        request()
+    kid = [rnd.randrange(1, 1 << 31)]
+    for rnd_no in range(rnd.randrange(2, 5)):
+        if outstanding and rnd.random() < 0.4:          # a caller gives up: its reply, when it comes, is nobody's
+            c = outstanding.pop(rnd.randrange(len(outstanding)))
+            b.cancel(c)
+            gone.append(c)
+        frames, kas, replied = [], 0, []
+        for _ in range(rnd.randrange(2, 8)):
+            r = rnd.random()
+            n = rnd.choice(sizes) if rnd.random() < 0.8 else 0
+            pl = dict(k="tag", len=n, tag=tag() if n else 0)
+            if r < 0.25 and outstanding:
+                c = outstanding.pop(rnd.randrange(len(outstanding)))
+                frames.append(dict(op="reply", to=b.req_index[c], typ=rtyp(b.reqs[c]["typ"]), pl=pl))
+                replied.append(c)
+                answered.append(c)
+            elif r < 0.4 and gone:
+                c = rnd.choice(gone)
+                frames.append(dict(op="reply", to=b.req_index[c], typ=rtyp(b.reqs[c]["typ"]), pl=pl))
+            elif r < 0.5 and answered and not (set(answered) & set(replied)):
+                c = rnd.choice(answered)
+                frames.append(dict(op="reply", to=b.req_index[c], typ=rtyp(b.reqs[c]["typ"]), pl=pl))
+            elif r < 0.65:
+                frames.append(dict(op="peer_send", typ=rnd.choice([11, 12, 13, 30, 100, 1023]), id=3000000000 + rnd.randrange(1000), pl=pl))
+            elif r < 0.78:
+                frames.append(dict(op="peer_send", typ=rnd.choice([61, 63]), id=rnd.choice([0, 7, 4000000000 + rnd.randrange(1000)]), pl=pl))
+            elif kas < 5:
+                kid[0] += 1
+                frames.append(dict(op="keepalive", id=rnd.choice([0, 4294967295, kid[0]]) if rnd.random() < 0.2 else kid[0]))
+                kas += 1
+        if focus in ("ka", "mixed") and kas == 0:
+            kid[0] += 1
+            frames.append(dict(op="keepalive", id=kid[0]))
+            kas = 1
+        total = sum(frame_len(f) for f in frames)
+        how = rnd.random()
+        segs = []
+        if how < 0.55 or total < 3:
+            segs = []                                       # everything in one Write
+        elif how < 0.8:
+            segs = sorted(rnd.sample(range(1, total), min(total - 1, rnd.randrange(1, 4))))
+        else:                                               # cuts just inside a header / just behind one
+            offs, pos = [], 0
+            for f in frames[:-1]:
+                pos += frame_len(f)
+                offs += [pos + d for d in (1, 9, 10, 11) if pos + d < total]
+            segs = sorted(rnd.sample(offs, min(len(offs), 2))) if offs else []
+        b.batch(frames, segs)
+        for _ in range(kas):
+            b.expect()
+        for c in replied:
+            b.wait(c)
+        if rnd.random() < 0.5:
+            request()
+    b.keepalive(kid[0] + 1000)                              # the stream is still in step: one more, alone
+    b.expect()
+    rnd.shuffle(outstanding)
+    for c in outstanding:
+        b.reply_to(c, rtyp(b.reqs[c]["typ"]), rnd.choice([0, 5, 90]), tag())
+        b.wait(c)
+    b.op("drain")
+    b.op("state")
+    sc = b.script()
+    sc["family"] = "coalesced"
+    return sc
 
 
 # ---------------------------------------------------------------- raw wire
